@@ -7,6 +7,7 @@ import (
 	"net/http"
 	"sort"
 	"strings"
+	"sync/atomic"
 	"time"
 
 	"nhooyr.io/websocket"
@@ -420,6 +421,8 @@ func c14Other(libRole Role, p wire.Params, mode int) {
 	}
 }
 
+var c14Depth atomic.Int64
+
 func c14Exchange(r *fw.R, what string, c *websocket.Conn, peerEnd *xport.End, libRole Role, p wire.Params, expectCompression bool) {
 	c14ExchangeMode(r, what, c, peerEnd, libRole, p, expectCompression, -1)
 }
@@ -495,6 +498,22 @@ func c14ExchangeMode(r *fw.R, what string, c *websocket.Conn, peerEnd *xport.End
 			r.Violate("C14/library-cannot-decode-peer-output", fmt.Sprintf("%s: applying the negotiated parameters %s, message %d sent by the peer was read as err=%v, equal=%v", what, paramsKey(p), i, err, bytes.Equal(got, m)), "")
 			return
 		}
+	}
+	if p.Deflate && p.SenderTakeover(libRole == RoleServer) && c14Depth.Add(1)%8 == 0 {
+		// the agreed window is the full 32 KiB one: a message that repeats what was sent almost a whole window
+		// earlier (the peer's compressor refers back to it) must decode
+		big := genPayload(fw.NewRand(777), 31000, 1, nil)
+		for i, m := range [][]byte{big, append([]byte("again:"), big[:3000]...)} {
+			f := wire.Data(wire.OpBinary, true, def.Message(m, 6, wire.EndSync))
+			f.Rsv1 = true
+			peer.Send(f)
+			_, got, err := c.Read(ctx)
+			if err != nil || !bytes.Equal(got, m) {
+				r.Violate("C14/library-cannot-decode-peer-output/window-depth", fmt.Sprintf("%s: applying the negotiated parameters %s, message %d of a pair whose second refers back ~31000 bytes was read as err=%v, equal=%v", what, paramsKey(p), i, err, bytes.Equal(got, m)), "")
+				return
+			}
+		}
+		r.Count("exchanges_reaching_back_a_whole_window", 1)
 	}
 	r.Count("messages_exchanged", 2*n)
 	if p.Deflate {
